@@ -7,13 +7,7 @@ from harness import core, acclib
 
 ID = 'C05'
 MODULE = 'Gpv.Props.C05'
-THEOREMS = [
-    'Gpv.C05.counter_eq', 'Gpv.C05.mean_eq', 'Gpv.C05.mean_sum_eq', 'Gpv.C05.variance_inv',
-    'Gpv.C05.variance_eq', 'Gpv.C05.rms_eq', 'Gpv.C05.variance_mean_readout', 'Gpv.C05.variance_n1_error',
-    'Gpv.C05.cov_eq', 'Gpv.C05.cov_symm', 'Gpv.C05.cov_diag_eq_variance',
-    'Gpv.C05.min_eq', 'Gpv.C05.max_eq', 'Gpv.C05.min_perm', 'Gpv.C05.max_perm',
-    'Gpv.C05.mean_perm', 'Gpv.C05.variance_perm',
-]
+THEOREMS = core.theorems('C05')
 RULE = ('random accumulator kind x shape (0-d..3-d) x length x value family (small ints, dyadics, mixed int/float, '
         'python numbers and ndarrays); read after every push; model run in exact rationals, implementation in floats, '
         'compared with relative tolerance 1e-9; independent oracle = exact batch statistic in Fractions. '
